@@ -143,7 +143,7 @@ const (
 
 var opNames = []string{"put(a)", "put(b,idx)", "put(a,if-absent)", "put(b,expected=current)", "delete(a)", "delete(b,expected=0)",
 	"deleteRange[a,c)", "deleteRange[k,l)", "session-create", "put-ephemeral(e/x y,idx)", "put-ephemeral(a)", "session-close",
-	"seq-put(s,+1)", "seq-put(s,+2,+1)", "put(a)+seq-put(s,delta0=0)[request fails]", "multi(put a,put b idx,delete a,deleteRange[e,f))",
+	"seq-put(s,+1)", "seq-put(s,+2,+1)", "put(a)+seq-put(s,+1)[rejected as a whole once two-delta keys exist]", "multi(put a,put b idx,delete a,deleteRange[e,f))",
 	"put(k050,idx)"}
 
 type config struct {
@@ -314,8 +314,10 @@ func (l *leader) step(op int) bool {
 		return plain(&proto.WriteRequest{Puts: []*proto.PutRequest{{Key: "s", Value: val("s"), PartitionKey: oxh.Str("p"), SequenceKeyDelta: []uint64{2, 1},
 			SecondaryIndexes: idx("i1", "q")}}})
 	case opPutThenBadSeq:
+		// passes the public write handler (well formed); ProcessWrite refuses it with ErrMissingSequenceDeltas,
+		// after put(a) was prepared, when keys s-<n>-<m> exist
 		return plain(&proto.WriteRequest{Puts: []*proto.PutRequest{{Key: "a", Value: val("a")},
-			{Key: "s", Value: val("s"), PartitionKey: oxh.Str("p"), SequenceKeyDelta: []uint64{0}}}})
+			{Key: "s", Value: val("s"), PartitionKey: oxh.Str("p"), SequenceKeyDelta: []uint64{1}}}})
 	case opMulti:
 		return plain(&proto.WriteRequest{
 			Puts:         []*proto.PutRequest{{Key: "a", Value: val("a")}, {Key: "b", Value: val("b"), SecondaryIndexes: idx("i1", "m")}},
@@ -379,7 +381,7 @@ type viol struct {
 }
 
 type stats struct {
-	applied, routeRuns, dumpCmp, respCmp, stuck, failing, phantom, behind, r4Survived, r4Lost int64
+	applied, routeRuns, dumpCmp, respCmp, stuck, skipped, failing, phantom, behind, r4Survived, r4Lost int64
 	perRoute                                                      map[string]int64
 	commitOffsets                                                 map[int64]struct{}
 }
@@ -394,6 +396,11 @@ func resume(db kv.DB, l *leader, from int, route string, st *stats) (bool, *viol
 		resp, err := applyEntry(db, l.log[k])
 		st.applied++
 		switch {
+		case err != nil && l.failed[k] && kv.IsInvalidRequestError(err):
+			// follower_controller.processCommitRequest / applyAllEntriesIntoDBLoop: the request is refused
+			// like on the leader that logged it and is skipped
+			st.skipped++
+			continue
 		case err != nil && l.failed[k]:
 			st.stuck++
 			return false, nil
@@ -759,6 +766,7 @@ func (a *agg) merge(s *stats) {
 	a.st.dumpCmp += s.dumpCmp
 	a.st.respCmp += s.respCmp
 	a.st.stuck += s.stuck
+	a.st.skipped += s.skipped
 	a.st.failing += s.failing
 	a.st.phantom += s.phantom
 	a.st.behind += s.behind
@@ -968,6 +976,7 @@ func main() {
 	run.Add("leader_entries_rejected", st.failing)
 	run.Add("version_ids_consumed_by_rejected_entries", st.phantom)
 	run.Add("replicas_stuck_on_entry_the_leader_rejected", st.stuck)
+	run.Add("rejected_entries_skipped_by_replicas", st.skipped)
 	run.Add("graceful_restart_or_snapshot_behind_applied_offset", st.behind)
 	run.Add("crash_runs_where_some_entries_survived", st.r4Survived)
 	run.Add("crash_runs_where_some_entries_were_lost", st.r4Lost)
@@ -999,7 +1008,7 @@ func main() {
 	run.Sample(map[string]any{"config": "range-delete/preload=101", "ops": names([]int{opDelRangeK, opPutKIdx, opSeq2})})
 	run.Assume = []string{
 		"log entries carry what leader_controller.write logs: one WriteRequest per offset, timestamp fixed in the entry; session create/close requests are built as session_manager.go / session.go build them",
-		"a replica that cannot apply an entry (ProcessWrite error, e.g. invalid sequence request) stops there, as follower_controller/applyAllEntriesIntoDB do; it has not applied the prefix and is not compared (C13 covers that)",
+		"an entry that ProcessWrite refuses on the leader (kv.IsInvalidRequestError, e.g. a sequential put with fewer deltas than the existing keys) is skipped by replicas exactly like follower_controller.processCommitRequest / applyAllEntriesIntoDBLoop do; any other error stops the replica, which is then not compared (C13 covers that)",
 		"__oxia/term and __oxia/term-options are not derived from the log and are excluded from the dumps",
 		"notifications enabled on every replica; retention far in the future; one mocked clock",
 		"crash = Pebble strict MemFS: everything not fsynced is lost (file data and directory entries)",
